@@ -7,22 +7,46 @@ package render
 // PathName is the template path universe of spec/RenderBase.tla; the index+1 of a name is its
 // "rank". RenderObs checks that sort.Strings agrees with this table.
 var PathName = []string{
+	"p/charts/s1/templates/A.yaml",
 	"p/charts/s1/templates/NOTES.txt",
 	"p/charts/s1/templates/_h.tpl",
 	"p/charts/s1/templates/a.yaml",
 	"p/charts/s1/templates/b.yaml",
+	"p/charts/s1/templates/sub/NOTES.txt",
 	"p/charts/s2/templates/NOTES.txt",
 	"p/charts/s2/templates/_h.tpl",
 	"p/charts/s2/templates/a.yaml",
+	"p/templates/A.yaml",
 	"p/templates/NOTES.txt",
 	"p/templates/_h.tpl",
 	"p/templates/_z.tpl",
 	"p/templates/a.yaml",
 	"p/templates/b.yaml",
 	"p/templates/c.yaml",
+	"p/templates/sub/NOTES.txt",
 }
 
-var PathChart = []string{"s1", "s1", "s1", "s1", "s2", "s2", "s2", "p", "p", "p", "p", "p", "p"}
+var PathChart = []string{"s1", "s1", "s1", "s1", "s1", "s1", "s2", "s2", "s2", "p", "p", "p", "p", "p", "p", "p", "p"}
+
+// ranks used by the concretiser (names as in RenderBase.tla)
+const (
+	RankS1N  = 2
+	RankS1SN = 6
+	RankPN   = 11
+	RankPH   = 12
+	RankPSN  = 17
+)
+
+// NoteText mirrors NoteText of RenderBase.tla.
+func NoteText(rank int) string {
+	switch rank {
+	case RankPSN:
+		return "status: N-p-sub"
+	case RankS1SN:
+		return "N-s1-sub: [not yaml"
+	}
+	return "N-" + PathChart[rank-1]
+}
 
 func RankOf(name string) int {
 	for i, n := range PathName {
@@ -133,6 +157,8 @@ type Obs struct {
 	Schema []string `json:"schema"`
 	// uninstall: kinds of the DELETE requests in arrival order
 	Uninst []string `json:"uninst"`
+	// error of the real install / uninstall on the simulated cluster ("" = none, or not tried)
+	UninstErr string `json:"uninstErr"`
 }
 
 type ObsLine struct {
